@@ -1317,6 +1317,12 @@ func wrappers(res *core.Result, log *core.Log, lib wkbadapt.Lib, s *Scenario, e 
 		res.Fail("non-bytes-accepted", "non-bytes-accepted", "Scan of a string value reported no error")
 		return false
 	}
+	// the error a caller gets can be rendered (twice, to the same text)
+	var m1, m2 string
+	if p := core.Guard(func() { m1, m2 = err.Error(), err.Error() }); p != "" || m1 == "" || m1 != m2 {
+		res.Fail("panic", "panic:error-render:"+core.PanicSite(p), "rendering the error of a refused Scan: panic %q, texts %q and %q", p, m1, m2)
+		return false
+	}
 	return true
 }
 
